@@ -8,7 +8,7 @@ ELEMENTS = ["C", "H", "O", "N", "Zr", "Cu", "F", "S"]
 TOKENS = ["harmonic", "fourier", "cosine/periodic", "cvff", "lj/cut", "1", "-1", "2", "3", "0.5", "12.500000", "-0.75",
           "1e-3", "100.25", "0.000000", "aa", "x_1"]
 COMMENTS = ["C_R O_1", "Zr1 O", "note", "C_3 H_ M=2", "a b c d"]
-XLABELS = {"atom": ["_atom_site_occupancy", "_atom_site_description", "_atom_site_U_iso"],
+XLABELS = {"atom": ["_atom_site_description", "_atom_site_calc_flag", "_atom_site_refinement_flags"],
            "bond": ["_geom_bond_distance", "_ccdc_geom_bond_type"],
            "angle": ["_geom_angle", "_geom_angle_publ_flag"],
            "dihedral": ["_geom_torsion", "_geom_torsion_publ_flag"],
